@@ -1101,7 +1101,6 @@ func sliceRoot(v ssa.Value) ssa.Value {
 	return nil
 }
 
-
 // resliceOrMake: every value fn returns is nil, a fresh make, or a reslice of its slice parameter
 // number param (the shape of reuse-or-allocate helpers, cleared or not).
 var resliceOrMakeMemo = map[*ssa.Function]int{}
@@ -1164,7 +1163,6 @@ func resliceOrMake(fn *ssa.Function) (param int, ok bool) {
 	}
 	return 0, false
 }
-
 
 // overwrittenWithNilBeforeExit: st stores into a field x.f; on every path from st to the function's
 // exit a later store writes nil into the same field of the same base value.
